@@ -23,7 +23,7 @@ ANCHORS = ["raggedarray/base.py::RaggedBase.ravel", "raggedarray/base.py::Ragged
            "raggedarray/indexablearray.py::IndexableArray.__setitem__", "raggedarray/base.py::RaggedBase.size"]
 FLOOR_TAGS = ["class:A", "class:B", "plan:everything", "plan:random", "inserted-read-on-lazy", "inserted:meta", "inserted:repr", "inserted:tolist", "inserted:sel", "inserted:sum0",
               "inserted:ell", "inserted:row", "inserted:maskidx"]
-FLOOR_MONITORS = ["c10:pair", "purity-tap", "global-state", "inv:ragged"]
+FLOOR_MONITORS = ["c10:pair", "purity-tap", "global-state"]
 N_RANDOM = {"quick": 3000, "thorough": 100000}
 GLOBAL_STATE_MONITOR = True     # reads must not leak into numpy's print options / error state either
 
